@@ -46,8 +46,9 @@ CHECKS["C02"] = ("model_checking", _T,
     "Executions of the real SyncBB computations on the real ordered graph for TLC-generated binary DCOPs (non-negative and signed costs, min and max, "
     "variables without constraint); at quiescence every computation has finished and the held values have cost Dcop!Opt.", _N, "DESIGN.md section 4 C02")
 CHECKS["C05"] = ("model_checking", _T,
-    "Executions of the real maxsum (synchronous, run for 3*|nodes|+10 rounds) and amaxsum (to quiescence) computations with damping 0, noise 0, stability 0 on "
-    "tree-shaped factor graphs whose optimum TLC found to be unique; the assignment selected at the end must be that optimum.", _N, "DESIGN.md section 4 C05")
+    "Executions of the real maxsum (synchronous, run for 3*|nodes|+10 rounds) and amaxsum (to quiescence) computations with damping 0, noise 0 (default stability) on "
+    "tree-shaped factor graphs whose optimum TLC found to be unique, with dyadic cost tables and with near-tie tables (differences far below the 10% stability); the "
+    "assignment selected at the end must be that optimum.", _N, "DESIGN.md section 4 C05")
 CHECKS["C09"] = ("model_checking", _T,
     "Executions of the real DBA computations on TLC-generated CSPs (tables over {0, infinity}); at every step where a computation reports finished TLC evaluates "
     "all constraints on the values held by all computations.", _N, "DESIGN.md section 4 C09")
@@ -113,18 +114,20 @@ CHECKS["C19"] = ("model_checking",
     "histories of receptions, posts, start, pause, resume and agent loop iterations up to 3 (quick) / 4 received and 2 posted messages and checks: handled once, in "
     "reception order, nothing lost, posts sent once in posting order, resume flushes both buffers. Every explored transition is replayed on a real computation hosted "
     "on a real Agent (thread not started) and the real state (flags, both buffers, queue content with priorities, handled, sent) compared after every step; the "
-    "observed histories and 300 (quick) / 3000 longer random histories driven to quiescence are judged by TLC.",
-    "Trusted: TLC, vlib/agentrt.py (the statements of Agent._run's loop body, executed by the harness instead of the agent thread), the recording wrappers of "
-    "vlib/props/C19.py. One known finding (order lost when a computation is paused again while re-injected messages are still queued).", "DESIGN.md section 4 C19")
+    "observed histories, 300 (quick) / 3000 longer random histories driven to quiescence and 40 / 400 histories handled by the REAL Agent._run on the agent's own "
+    "thread (the loop is held inside a handler while the start / resume order and newer messages are queued together) are judged by TLC.",
+    "Trusted: TLC, vlib/agentrt.py (the statements of Agent._run's loop body, executed by the harness instead of the agent thread, for the model-driven part), the "
+    "recording wrappers of vlib/props/C19.py. One known finding (order lost when a computation is paused again while re-injected messages are still queued).", "DESIGN.md section 4 C19")
 
 CHECKS["C18"] = ("model_checking",
     "TLC model checking of Messaging.tla (all interleavings of the steps of concurrent post_msg calls, registration, agent loop, shutdown), replay of the explored transitions on the real Agent/Messaging with real posting threads advanced one yield point at a time, TLC judging of the observed histories (Judge_C18)",
     "Messaging.tla splits post_msg into its pre-emptible steps (shutdown check, discovery lookup, counter+put, subscription, deferral with second lookup) for two "
     "posting threads running scripts of 2-3 posts (types 5/10/20, a registered and a late destination) and interleaves them with the registration of the late "
-    "computation, agent loop iterations, clean shutdown and loop exit; TLC checks handled-once, priority, per-sender FIFO, nothing lost, no stuck deferral, shutdown "
-    "drains. The transitions TLC explored (quick: 700 seeded covering paths per script set; thorough: all) are replayed on a real Agent with real threads parked at "
-    "wrapped callables (discovery lookup, clock read before the counter increment, subscription, lock acquisition), the real state compared after every step, and "
-    "the resulting histories judged by TLC.",
+    "computation (three steps: recorded, callback-table test, callbacks under the deferred-list lock), agent loop iterations, clean shutdown and loop exit; TLC checks handled-once, priority, per-sender FIFO, nothing lost, no stuck deferral, shutdown "
+    "drains. The transitions TLC explored (quick: 550 seeded covering paths per script set; thorough: all) and 120 / 1200 random walks of the model's graph "
+    "per script set are replayed on a real Agent with real threads parked at wrapped callables (discovery lookup, clock read before the counter increment, "
+    "subscription, lock acquisition, the registration's callback-table test), the real state compared after every step; when the code leaves the model the rest "
+    "of the path is still applied as a schedule; every delivery is recorded and the resulting histories judged by TLC.",
     "Trusted: TLC, vlib/stepthreads.py; vlib/agentrt.py for the half of the paths where the loop body is executed by the harness (the other half runs the REAL "
     "Agent._run thread, parked at Messaging.next_msg and at the end of each iteration). The counter increment and the queue put are one model step (the order is "
     "decided by the counter). A few free-running executions (real concurrent posting threads) are judged as well.", "DESIGN.md section 4 C18")
@@ -141,14 +144,23 @@ CHECKS["C08"] = ("model_checking",
     "DESIGN.md section 4 C08")
 
 CHECKS["C20"] = ("model_checking",
-    "TLC-enumerated histories of discovery operations and single deliveries (Gen_C20 over Discovery.tla), executed on real Agent/Discovery/Directory objects with imposed delivery orders, convergence judged by TLC (Judge_C20)",
-    "Discovery.tla specifies, from the operations alone, who hosts what and who is subscribed to what; TLC enumerates every history of at most 3 (quick) / 4 operations "
-    "(register / unregister, subscribe without / with / one-shot callback, unsubscribe, publish / unpublish replica, subscribe / unsubscribe replicas; 2 agents, 2 "
-    "computations) interleaved with single-message deliveries on the four agent<->directory channels, and simulates histories of 10; each is executed on real agents (threads "
-    "not started, inter-agent messages held in per-pair FIFO channels, seeded drain order); at each drain point TLC checks that every subscribed computation / replica "
-    "view equals the directory's table, that no discovery handler raised and that each change of a callback-subscribed item fired a callback.",
-    "Trusted: TLC, vlib/agentrt.py, the channel interception in vlib/props/C20.py. Agent (un)registration and agent subscriptions are exercised through C27 only. The "
-    "specification is at the level of the API and of the convergence statement; the message handlers themselves are not modelled step by step.", "DESIGN.md section 4 C20")
+    "DiscoveryProtocol.tla (message-level model of the computation part of discovery: client API calls, directory and client handlers, FIFO channels) model-checked "
+    "exhaustively and every explored transition replayed on the real Discovery / Directory objects with full state comparison; TLC-enumerated histories of discovery "
+    "operations (Gen_C20 over Discovery.tla: computations, replicas, agent subscriptions and departures) executed on real agents with imposed delivery orders, "
+    "convergence judged by TLC (Judge_C20)",
+    "Discovery.tla specifies, from the operations alone, who hosts what, who left and who is subscribed to what; TLC enumerates every history of at most 3 (quick) / 4 "
+    "computation / replica operations (2 agents, 2 computations) interleaved with single-message deliveries on the agent<->directory channels, every history of at most "
+    "4 / 5 on one computation, every history of at most 4 with agent subscriptions and departures, every history of at most 6 operations / drains by three agents (replica "
+    "families; the quick tier executes seeded samples of the last two), and simulates histories of 10; each is executed on real agents (threads not started, inter-agent "
+    "messages held in per-pair FIFO channels; drained in a seeded random order and in two fixed priority orders); at each drain point TLC checks that every computation, "
+    "replica and agent view the agent is still subscribed to equals the directory's table, that no discovery handler raised and that each change of a callback-subscribed "
+    "item fired a callback. DiscoveryProtocol.tla gives the mechanism: one action per API call / handler invocation over the real data (views, callback entries incl. the "
+    "empty entry one-shot callbacks leave behind, directory tables, channel contents); the invariants that hold are checked in every state (directory right when "
+    "publications arrive in order, views converge for subscriptions never dropped, subscribed agents known to the directory), every transition (quick: 1 computation, 4 API "
+    "calls; thorough: 6, and 2 computations x 4) is replayed on the real objects; the statement itself is violated in the model, and TLC's counterexamples, executed on the "
+    "real objects, must end in the model's final state and be judged as (known) violations.",
+    "Trusted: TLC, vlib/agentrt.py, the channel interception in vlib/props/C20.py. The replica and agent parts are specified at the level of the API and of the "
+    "convergence statement only (Discovery.tla); their handlers are not modelled step by step.", "DESIGN.md section 4 C20")
 
 CHECKS["C21"] = ("exploration",
     "thread identity of every computation callback recorded in real-thread orchestrated runs (vlib/threadrt.py) and judged by TLC (Judge_C21)",
@@ -179,7 +191,9 @@ CHECKS["C25"] = ("model_checking",
     "TLC draws the DCOP (Gen_Dcop, 9 shapes) and the deployment (Gen_C25: capacities from tight to ample, symmetric route costs, hosting costs, placement, k in 1..3) for 3-4 "
     "(quick) / 3-6 agents sharing one process; the DSA computations are deployed through the real orchestrator and replicated with dist_ucs_hostingcosts under seeded "
     "interleavings of agent loop iterations; every _accept_replica call is recorded with what the agent held; TLC checks: all agents report done, hosts distinct, not the "
-    "owner, at most k, recorded in the directory and actually held, and each acceptance satisfies remaining capacity >= footprint + worst case for k-1 owners.",
+    "owner, at most k, recorded in the directory and actually held, and each acceptance satisfies remaining capacity >= footprint + worst case for k-1 owners. "
+    "With 4 agents or more the first run of each deployment goes on: the agent holding replicas of the most owners is stopped (no repair), and the acceptances of "
+    "the re-replication it triggers are judged by the same rule.",
     "Trusted: TLC (Replication.tla), vlib/orchrt.py + vlib/agentrt.py, the recorder around _accept_replica. Interleavings are sampled; the UCS search itself (budgets, "
     "paths) is not modelled step by step (DESIGN.md section 5).", "DESIGN.md section 4 C25")
 
@@ -187,10 +201,10 @@ CHECKS["C27"] = ("model_checking",
     "whole resilient runs on real objects (deploy, replicate, run, scenario removal event, MGM2 repair DCOP) in the deterministic orchestrated runtime with seeded interleavings; the state after the repair judged by TLC against Repair.tla (Judge_C27)",
     "TLC draws the DCOP (Gen_Dcop) and the deployment (Gen_C25, ample capacities, k in {1,2}); the DSA computations are deployed on real ResilientAgents through the real "
     "orchestrator, replicated, started, then every set of at most k agents (quick: 3 drawn sets) is removed by a scenario event, before the algorithm starts or after 40 / 200 "
-    "agent steps; the repair (candidate info, repair DCOP with MGM2, activation of replicas, repair_ready / repair_done barriers) runs under a seeded interleaving of agent "
+    "agent steps, and in every other run a second event removes up to k of the survivors 100 / 400 agent steps after the first repair; each repair (candidate info, repair DCOP with MGM2, activation of replicas, repair_ready / repair_done barriers) runs under a seeded interleaving of agent "
     "loop iterations; TLC checks: the repair completes, every original computation is actually hosted by exactly one surviving agent and the directory names that agent, "
     "a re-hosted computation went to a holder of its replica, untouched computations stayed, status OK only then, and no handler raised.",
-    "Trusted: TLC (Repair.tla), vlib/orchrt.py + vlib/agentrt.py. Interleavings are sampled; real-thread repairs are not run.", "DESIGN.md section 4 C27")
+    "Trusted: TLC (Repair.tla, RepairProtocol.tla), vlib/orchrt.py + vlib/agentrt.py, vlib/orchproto.py (event recorder). Interleavings are sampled; real-thread repairs are not run.", "DESIGN.md section 4 C27")
 
 CHECKS["C23"] = ("model_checking",
     "outcomes of the real distribution methods on TLC-drawn DCOPs and agent sets judged by TLC against Distribution.tla (Judge_C23)",
